@@ -34,8 +34,36 @@ def refoot(body):
 # total frame lengths around every power-of-two / buffer-size boundary up to the 16-bit limit; 263 = bulk request for 255 channels
 LONG_LENS = [32, 63, 64, 65, 255, 256, 257, 263, 1023, 1024, 1025, 2047, 2048, 2049, 4095, 4096, 32767, 32768, 65535]
 
+# request id -> (callback, payload sizes the NxScope protocol defines for that request).  The property says WHICH strings
+# are accepted and that the payload handed on is the bytes between header and CRC; it says nothing about what the
+# dispatcher does with an accepted frame whose payload size no request has (nxslib's callbacks assert on some of them):
+# for those sizes — and for the accepted ids that are not requests — firing the right callback with exactly those bytes,
+# raising (any exception) and doing nothing are all fine.  A frame with a protocol-defined size must fire.
+REQ_OF = {2: ("cmninfo", lambda n: n == 0), 3: ("chinfo", lambda n: n == 1), 5: ("start", lambda n: n == 1),
+          6: ("enable", lambda n: n >= 3), 7: ("div", lambda n: n >= 3)}
+# (kept for harness/props/C20.py, which imports it: the payload-size asserts of nxslib's own callbacks; C02 does not use it)
 CB_OF = {2: ("cmninfo", lambda n: n == 0), 3: ("chinfo", lambda n: n == 1), 5: ("start", lambda n: n == 1),
          6: ("enable", lambda n: n != 0), 7: ("div", lambda n: n != 0)}
+
+# totals whose length field contains the start byte: 0x0055, 0x0155, 0x0255, 0x5500, 0x5555
+LEN55 = [85, 341, 597, 21760, 21845]
+
+
+def dispatcher_verdict(exp, out):
+    """exp: accepts(cropped input); out: Recorder.handle -> None if fine else the text of what was allowed"""
+    if exp is None:
+        return None if out == "ignored" else "ignored"
+    fid, p = exp
+    if fid in REQ_OF:
+        fired = f"fired {REQ_OF[fid][0]} {hexs(p)}"
+        if REQ_OF[fid][1](len(p)):
+            return None if out == fired else fired
+        if out == fired or out == "ignored" or out.startswith("raised "):
+            return None
+        return f"{fired} (or an exception / nothing: a {len(p)}-byte payload is no {REQ_OF[fid][0]} request)"
+    if out == "ignored" or out.startswith("raised "):
+        return None
+    return f"no callback (id {fid} is a known frame id but no request: an exception or nothing)"
 
 
 def accepts(d):
@@ -138,7 +166,13 @@ class C02(Prop):
             "32, 63..65, 255..257, 263, 1023..1025, 2047..2049, 4095, 4096, 32767, 32768, 65535 bytes; block-wise-CRC "
             "footers; 2-bit flips at distance 32767 (accepted: the bound of the theorems is tight); real-code sweep of "
             "every 1-bit flip and the 2-bit flips / bursts at the 1 KiB block boundaries of a 2100- and a 4095-byte "
-            "frame; distinct = distinct (op,input); non-trivial = input of >= 4 bytes containing 0x55")
+            "frame; EMBEDDED FRAMES: bulk requests whose value bytes spell another request (valid, every 1-bit flip, "
+            "sampled 2-bit flips), junk candidates (unknown id, bad CRC, truncated, over-long declared length, lone 0x55 "
+            "runs) followed by a valid request — only the FIRST 0x55 is a candidate; START BYTE INSIDE: total lengths "
+            "85 / 341 / 597 / 21760 / 21845 (0x55 in the length field), payloads starting with / made of 0x55, runs of "
+            "0x55 in front of a request; the dispatcher oracle demands a callback only for payload sizes the protocol "
+            "defines (other sizes: right callback with the exact bytes, an exception, or nothing); "
+            "distinct = distinct (op,input); non-trivial = input of >= 4 bytes containing 0x55")
     assumptions = ["crcmod validated against the Lean CRC, not verified",
                    "error-detection theorems are about crc16xmodem of the model; they apply to the code through "
                    "Gen.Crc.params = xmodem (regenerated) and the correspondence"]
@@ -244,9 +278,71 @@ class C02(Prop):
                     k = rng.choice([3, 5, 7, 9])
                     yield from self.both(g.flip_bits(f, rng.sample(range(nb), k)), "flip-odd")
         yield from self.long_cases(rng, T)
+        yield from self.embedded_cases(rng, T)
+        yield from self.sof_inside_cases(rng, T)
         # pure noise, 0x55-rich
         for _ in range(300 if T else 60):
             yield from self.both(g.noise(rng, rng.randrange(0, 24), sof_rich=True), "noise")
+
+    def embedded_cases(self, rng, T):
+        """only the first 0x55 of a byte string is a frame candidate: a well-formed frame further on (inside the payload of
+        a damaged frame, behind junk) must not be acted upon"""
+        def quiet(n):
+            return bytes(rng.choice([0, 1, 2, 0x54, 0x56, 0xAA, rng.randrange(256)]) for _ in range(n)).replace(b"\x55", b"\x45")
+        inners = [ref_frame(5, b"\x01"), ref_frame(2, b""), ref_frame(3, bytes([rng.randrange(8)])), ref_frame(5, b"\x00"),
+                  ref_frame(6, bytes([2, 0, 1])), ref_frame(7, bytes([0, rng.randrange(4), rng.randrange(256)]))]
+        for k, inner in enumerate(inners):
+            # a legal bulk divider / enable-shaped request whose value bytes contain the image of another request
+            vals = (b"" if k == 0 else quiet(rng.randrange(0, 4))) + inner + (b"" if k == 0 else quiet(rng.randrange(0, 4)))
+            outer = lframe(7 if k % 2 == 0 else 6, bytes([1, 0]) + vals)
+            yield from self.both(outer, "embedded-valid-outer")
+            nb = len(outer) * 8
+            for p in range(nb):
+                yield from self.both(g.flip_bits(outer, [p]), "embedded-flip-1")
+            for _ in range(300 if T else 40):
+                yield from self.both(g.flip_bits(outer, rng.sample(range(nb), 2)), "embedded-flip-2")
+            yield from self.both(outer[:-1], "embedded-truncated")
+            yield from self.both(g.near_miss(outer, rng.choice(g.NEAR_RESIDUES)), "embedded-near-miss")
+            yield from self.both(g.set_len(outer, len(outer) + 1), "embedded-overlong")
+        # junk that starts with 0x55 and is no frame, followed by a valid request
+        for _ in range(40 if T else 8):
+            req = g.request_frame(rng)
+            other = g.request_frame(rng)
+            junks = [bytes.fromhex("550600ff0000"), b"\x55", b"\x55\x55", b"\x55\x00", bytes.fromhex("550600020000"),
+                     other[:-1], other[:-2], g.flip_bits(other, [rng.randrange(24, len(other) * 8)]),
+                     refoot(other[:3] + bytes([rng.randrange(9, 256)]) + other[4:-2]),
+                     g.set_len(other, len(other) + len(req) + 1), refoot(g.set_len(other, 200)[:-2]),
+                     bytes([0x55, rng.randrange(0, 6), 0, 2])]
+            for j in junks:
+                yield from self.both(j + req, "junk-then-valid")
+                yield from self.both(quiet(rng.randrange(0, 3)) + j + quiet(rng.randrange(0, 3)) + req, "junk-then-valid")
+
+    def sof_inside_cases(self, rng, T):
+        """the start byte value inside a frame: in the length field, as first payload byte, as a run in front"""
+        for L in LEN55:
+            big = L > 5000
+            for fid in ((6, 7, 0, 8) if (T or not big) else (7,)):
+                f = lframe(fid, bytes([1, 0]) + rng.randbytes(L - 8))
+                assert len(f) == L
+                yield from self.both(f, "len55-valid")
+                yield from self.both(bytes(rng.randrange(1, 5)) + f + bytes(-(L + 4) % 16), "len55-padded")
+                if big and not T:
+                    continue
+                yield from self.both(g.flip_bits(f, [rng.randrange(24, L * 8)]), "len55-flip-1")
+                yield from self.both(f[:-1], "len55-truncated")
+        for _ in range(40 if T else 10):
+            fid = rng.choice([6, 7, 6, 7, rng.randrange(9)])
+            p = rng.choice([b"\x55" + g.rbytes(rng, rng.randrange(2, 9)), b"\x55" * rng.randrange(3, 9), bytes([1, 0x55]) + g.rbytes(rng, 3)])
+            f = lframe(fid, p)
+            yield from self.both(f, "sof-payload")
+            yield from self.both(g.flip_bits(f, [rng.randrange(24, len(f) * 8)]), "sof-payload-flip-1")
+        for f in (ref_frame(3, b"\x55"), ref_frame(5, b"\x55")):
+            yield from self.both(f, "sof-payload")
+        for _ in range(20 if T else 6):
+            req = g.request_frame(rng)
+            for k in range(1, 5):
+                yield from self.both(b"\x55" * k + req, "sof-run-then-valid")
+                yield from self.both(b"\x00" + b"\x55" * k + req, "sof-run-then-valid")
 
     def long_cases(self, rng, T):
         """valid and near-valid frames of every length class up to the 16-bit limit, through decoder and dispatcher"""
@@ -351,16 +447,11 @@ class C02(Prop):
         out = rec.handle(d)
         i = d.find(b"\x55")
         exp = accepts(d[i:]) if i >= 0 else None
-        if exp is None:
-            want = "ignored"
-        else:
-            fid, p = exp
-            if fid in CB_OF and CB_OF[fid][1](len(p)):
-                want = f"fired {CB_OF[fid][0]} {hexs(p)}"
-            else:
-                want = "raised assert"
-        if out != want:
-            return {"key": "dispatcher-accept", "what": f"recv_handle reacts to a byte string of {len(d)} bytes against the acceptance predicate",
+        want = dispatcher_verdict(exp, out)
+        if want is not None:
+            return {"key": "dispatcher-accept", "what": f"recv_handle reacts to a byte string of {len(d)} bytes against the acceptance predicate "
+                    "applied at its FIRST 0x55 (no frame there: nothing may happen; a frame there: its callback with the bytes "
+                    "between header and CRC)",
                     "expected": _short(want), "observed": _short(out)}
         return None
 
